@@ -227,6 +227,75 @@ def lossless_rank(shp):
     return r
 
 
+# ----------------------------------------------------------------------------
+# argument forms: the same mathematical input handed over as list / ndarray of several dtypes / NumPy scalars
+# ----------------------------------------------------------------------------
+Y_FORMS = ['list', 'f64', 'f32', 'f16', 'i64', 'i32', 'pyint']
+I_FORMS = ['list', 'i64', 'i32', 'u8', 'f64']
+S_FORMS = ['py', 'np64', 'np32']
+X_FORMS = ['list', 'f64', 'f32', 'f16']
+AB_FORMS = ['py', 'np64', 'np32', 'list', 'arr', 'pyint']
+
+
+def form_y(vals, form):
+    """(object passed, exact values it denotes as Python floats / ints)"""
+    if form in ('i64', 'i32', 'pyint'):
+        iv = [int(round(v)) for v in vals]
+        obj = iv if form == 'pyint' else np.array(iv, dtype={'i64': np.int64, 'i32': np.int32}[form])
+        return obj, [float(v) for v in iv]
+    if form == 'list':
+        return [float(v) for v in vals], [float(v) for v in vals]
+    obj = np.array(vals, dtype={'f64': np.float64, 'f32': np.float32, 'f16': np.float16}[form])
+    return obj, [float(v) for v in obj]      # a float32 / float16 array denotes exactly these rationals
+
+
+def form_I(rows, form):
+    if form == 'list':
+        return [list(r) for r in rows]
+    return np.array(rows, dtype={'i64': np.int64, 'i32': np.int32, 'u8': np.uint8, 'f64': np.float64}[form])
+
+
+def form_s(v, form, integer=True):
+    if form == 'py':
+        return int(v) if integer else float(v)
+    if integer:
+        return {'np64': np.int64, 'np32': np.int32}[form](v)
+    return {'np64': np.float64, 'np32': np.float32}[form](v)
+
+
+def form_X(X, form):
+    if form == 'list':
+        return [list(r) for r in X]
+    return np.array(X, dtype={'f64': np.float64, 'f32': np.float32, 'f16': np.float16}[form])
+
+
+def form_ab(v, d, form):
+    if form == 'py':
+        return float(v)
+    if form == 'pyint':
+        return int(v) if float(v) == int(v) else float(v)
+    if form == 'np64':
+        return np.float64(v)
+    if form == 'np32':
+        return np.float32(v)
+    if form == 'list':
+        return [float(v)] * d
+    return np.array([float(v)] * d)
+
+
+def gen_forms_anova(rng):
+    """sample set with index values 0..12 (so that uint8 holds them) and a y whose form is drawn; returns the
+    objects to pass and the exact values they denote"""
+    rows, y, desc = gen_samples(rng, nmax=3)
+    lo = min(min(r) for r in rows)
+    rows = [[v - lo for v in r] for r in rows]
+    yform, iform = rng.choice(Y_FORMS), rng.choice(I_FORMS)
+    if yform in ('list', 'f64', 'f32', 'f16') and desc['kind'] != 'additive_full':
+        y = [rng.choice([v, v + 0.1, v / 8., v * 0.3, v + 1. / 3.]) for v in y]   # not representable in the narrow dtypes
+    yobj, yex = form_y(y, yform)
+    return rows, yobj, yex, form_I(rows, iform), dict(yform=yform, iform=iform, **desc)
+
+
 def ranks_of(Y):
     return [1] + [G.shape[2] for G in Y]
 
@@ -626,10 +695,23 @@ def corr_func(R, ctx, tn):
     for c in range(n_cases):
         family = FUNC_FAMILIES[c % len(FUNC_FAMILIES)]
         X, y, n, a, b, lamb, d = gen_func(rng, family)
-        Xa, ya = np.array(X), np.array(y)
+        # argument forms: X / y / a / b / n / lamb as list, ndarray of several dtypes, Python or NumPy scalars; the model
+        # and every reference below use the exact values the passed objects denote
+        wide = family in ('tiny18', 'tiny100', 'tiny300', 'huge100', 'huge200', 'mixed_tiny')
+        xform = rng.choice(X_FORMS)
+        yform = rng.choice(['list', 'f64'] if wide else ['list', 'f64', 'f32', 'f16'] +
+                           (['i64', 'i32', 'pyint'] if all(float(v) == int(v) for v in y) else []))
+        abform, nform = rng.choice(AB_FORMS), rng.choice(S_FORMS)
+        Xa0 = form_X(X, xform)
+        X = [[float(v) for v in row] for row in np.array(Xa0, dtype=float)]
+        ya0, y = form_y(y, yform)
+        aa, ba, na = form_ab(a, d, abform), form_ab(b, d, abform), form_s(n, nform)
+        lamb_a = np.float64(lamb) if nform != 'py' else lamb
+        Xa, ya = Xa0, ya0
+        Xsnap, ysnap = np.array(Xa0, copy=True), np.array(ya0, copy=True)
         hist = []
         with LstsqRecorder() as rec, DeltaRecorder(tn) as drec:
-            F = tn.ANOVA_func(Xa, ya, n, a, b, lamb)
+            F = tn.ANOVA_func(Xa, ya, na, aa, ba, lamb_a)
             cf1 = [np.array(c_, dtype=float).reshape(-1).copy() for c_ in F.coeffs]
             Yn = F.cores(e=None)
             ncalls1 = len(rec.calls)
@@ -640,8 +722,8 @@ def corr_func(R, ctx, tn):
                 hist.append('coeffs were recomputed on the second call')
             calls = rec.calls[:ncalls1]
             dcalls = list(drec.calls)
-        Ym = tn.anova_func(Xa, ya, n, a, b, lamb, e=None)
-        Ym2 = tn.anova_func(Xa, ya, n, a, b, lamb, e=None)
+        Ym = tn.anova_func(Xa, ya, na, aa, ba, lamb_a, e=None)
+        Ym2 = tn.anova_func(Xa, ya, na, aa, ba, lamb_a, e=None)
         for nm, u, w in (('coeffs after cores()', cf1, cf2), ('coeffs after 2nd cores()', cf1, cf3)):
             if len(u) != len(w) or not all(np.array_equal(p_, q_) for p_, q_ in zip(u, w)):
                 hist.append(f'{nm} differ from the first coeffs')
@@ -650,20 +732,23 @@ def corr_func(R, ctx, tn):
                       ('2nd anova_func(e=None)', Ym2)):
             if not np.array_equal(tn.full(Z), fn):
                 hist.append(f'{nm} differs from the first cores(e=None)')
-        if not np.array_equal(Xa, np.array(X)) or not np.array_equal(ya, np.array(y)):
+        if not np.array_equal(np.array(Xa), Xsnap) or not np.array_equal(np.array(ya), ysnap):
             hist.append('arguments were modified')
-        Ye = None if family in NO_ROUNDING else tn.anova_func(Xa, ya, n, a, b, lamb)
+        Ye = None if family in NO_ROUNDING else tn.anova_func(Xa, ya, na, aa, ba, lamb_a)
         REC = qnested([c_[2].tolist() for c_ in calls])
         args = (f'{qnested(X)} {qlist(y)} {n}%nat {qlist([a] * d)} {qlist([b] * d)} {C.qlit(Fraction(lamb))}')
         cases.append(f'show_sys (systems OQc {args})')
         cases.append(f'show_dense (anova_func OQc {args} (fun i _ _ => nth i {REC} []) splitQ None)')
-        meta.append((X, y, n, a, b, lamb, d, calls, Yn, Ye, dcalls, hist, family))
-        for k, v in (('d', d), ('n', n), ('lamb', lamb), ('family', family)):
+        meta.append((X, y, n, a, b, lamb, d, calls, Yn, Ye, dcalls, hist,
+                     (family, dict(xform=xform, yform=yform, abform=abform, nform=nform))))
+        for k, v in (('d', d), ('n', n), ('lamb', lamb), ('family', family), ('xform', xform), ('yform', yform),
+                     ('abform', abform), ('nform', nform)):
+            dist.setdefault(k, {})
             dist[k][str(v)] = dist[k].get(str(v), 0) + 1
     vals = C.run_cases('C13_func', HEADER, cases, chunk=6)
     bad = []
-    for c, (X, y, n, a, b, lamb, d, calls, Yn, Ye, dcalls, hist, family) in enumerate(meta):
-        inp = dict(stream='func', X=X, y=y, n=n, a=a, b=b, lamb=lamb, family=family)
+    for c, (X, y, n, a, b, lamb, d, calls, Yn, Ye, dcalls, hist, (family, forms)) in enumerate(meta):
+        inp = dict(stream='func', X=X, y=y, n=n, a=a, b=b, lamb=lamb, family=family, forms=forms)
         R.add_distinct(('func', X, y, n, a, b, lamb))
         ms, md = vals[2 * c], vals[2 * c + 1]
         why = hist[0] if hist else None
@@ -717,6 +802,87 @@ def corr_func(R, ctx, tn):
                  '/ anova_func calls bit-identical', dist,
                  dict(stream='anova_func', input=dict(X=meta[0][0], y=meta[0][1], n=meta[0][2]), model=vals[1][:1]))
     return bad
+
+
+def corr_argforms(R, ctx, tn):
+    """ARGUMENT FORMS: ANOVA / anova with y as list, float64 / float32 / float16 / int64 / int32 ndarray or Python
+    ints, I as list of lists, int64 / int32 / uint8 ndarray or a float array holding integers, r / order / noise as
+    Python or NumPy scalars.  The model (Qc) is evaluated on the exact rationals the passed values denote; f0, f1,
+    f2 and the dense order-1 tensor must agree to double precision (1e-12 relative)."""
+    rng = ctx['rng']
+    n_cases = 42 if not ctx['thorough'] else 280
+    cases, meta = [], []
+    dist = dict(yform={}, iform={}, sform={}, order={})
+    for c in range(n_cases):
+        rows, yobj, yex, Iobj, desc = gen_forms_anova(rng)
+        if c < len(Y_FORMS) * 2:     # every y form at least twice
+            desc['yform'] = Y_FORMS[c % len(Y_FORMS)]
+            yobj, yex = form_y(yex, desc['yform'])
+        order, r = rng.choice([1, 2]), rng.randint(2, 4)
+        sform = rng.choice(S_FORMS)
+        res = C.call_impl(lambda: _argform_run(tn, Iobj, yobj, form_s(order, sform), form_s(r, sform),
+                                               form_s(0., sform, integer=False)))
+        Iq, yq = C.nested(rows, C.zlit), qlist(yex)
+        cases.append(f'show_r show_anova (ANOVA OQc {Iq} {yq} {order}%nat)')
+        cases.append(f'show_r show_dense (anova_tt OQc {Iq} {yq} {r}%nat 1%nat (Q2Qc 0) (g4 []) skelQ truncQ)')
+        meta.append((rows, yex, order, r, desc, sform, res))
+        for k, v in (('yform', desc['yform']), ('iform', desc['iform']), ('sform', sform), ('order', order)):
+            dist[k][str(v)] = dist[k].get(str(v), 0) + 1
+    vals = C.run_cases('C13_argforms', HEADER, cases, chunk=10)
+    bad = []
+    for c, (rows, yex, order, r, desc, sform, res) in enumerate(meta):
+        inp = dict(stream='argforms', rows=rows, y=yex, order=order, r=r, yform=desc['yform'], iform=desc['iform'],
+                   sform=sform)
+        R.add_distinct(('argforms', rows, yex, order, r, desc['yform'], desc['iform'], sform))
+        mv, md = vals[2 * c], vals[2 * c + 1]
+        scale = max(abs(v) for v in yex) or 1.0
+        tol = 1e-12 * scale
+        why = None
+        try:
+            if res[0] != 0:
+                why = f'implementation raised (error class {res[0]})'
+            else:
+                f0, f1a, f2a, dom, full = res[1]
+                d = len(rows[0])
+                npairs = d * (d - 1) // 2 if order >= 2 else 0
+                if mv[0] != [0] or mv[1] != [order, d, npairs] or len(f2a) != npairs:
+                    why = f'header: model {mv[:2]} impl pairs {len(f2a)}'
+                elif mv[3:3 + d] != [[int(v) for v in dm] for dm in dom] or \
+                        any(float(v) != int(v) for dm in dom for v in dm):
+                    why = f'domain: model {mv[3:3 + d]} impl {dom}'
+                else:
+                    if not close(fr_list(mv[3 + d])[0], f0, tol):
+                        why = f'f0: model {float(fr_list(mv[3 + d])[0])!r} impl {f0!r}'
+                    for k in range(d):
+                        f1m = fr_list(mv[4 + d + k])
+                        if len(f1m) != len(f1a[k]) or not all(close(a_, b_, 2 * tol) for a_, b_ in zip(f1m, f1a[k])):
+                            why = why or f'f1[{k}]: model {[float(v) for v in f1m]} impl {f1a[k]}'
+                    for num in range(npairs):
+                        f2m = fr_list(mv[5 + 2 * d + 2 * num])
+                        if len(f2m) != len(f2a[num]) or not all(close(a_, b_, 4 * tol) for a_, b_ in zip(f2m, f2a[num])):
+                            why = why or f'f2[{num}] differs'
+                    fa = np.array(full, dtype=float)
+                    dm_ = fr_list(md[2]) if md[0] == [0] else []
+                    if md[0] != [0] or md[1] != list(fa.shape) or \
+                            not all(close(a_, b_, 10 * tol) for a_, b_ in zip(dm_, fa.reshape(-1))):
+                        why = why or 'dense order-1 tensor of teneva.anova differs from the model'
+        except Exception as e:  # noqa
+            why = why or 'comparison raised ' + repr(e)[:200]
+        if why:
+            bad.append(dict(stream='argforms', input=inp, why=why))
+    _append_corr(R, 'anova_argforms', len(cases), bad,
+                 'ANOVA / anova called with every argument form; f0, f1, f2, dense order-1 tensor vs the model on the '
+                 'exact values denoted by the passed arrays: 1e-12 relative to max|y|; domain exact', dist,
+                 dict(stream='anova_argforms', input=dict(rows=meta[0][0], y=meta[0][1], forms=meta[0][4]),
+                      model=vals[0][:4]))
+    return bad
+
+
+def _argform_run(tn, Iobj, yobj, order, r, noise):
+    A = tn.ANOVA(Iobj, yobj, order=order, seed=3)
+    Y = tn.anova(Iobj, yobj, r=r, order=1, noise=noise, seed=3)
+    return [float(A.f0), [[float(v) for v in a_] for a_ in A.f1_arr], [[float(v) for v in a_] for a_ in A.f2_arr],
+            [[float(v) for v in dm] for dm in A.domain], tn.full(Y)]
 
 
 def _state(A):
@@ -839,6 +1005,7 @@ def correspondence(R, ctx):
         bad += corr_cores1(R, ctx, tn)
         bad += corr_order2(R, ctx, tn)
         bad += corr_history(R, ctx, tn)
+        bad += corr_argforms(R, ctx, tn)
         bad += corr_func(R, ctx, tn)
     return bad
 
@@ -847,20 +1014,29 @@ def correspondence(R, ctx):
 # search: property-level oracle on the implementation, independent of the model
 # ----------------------------------------------------------------------------
 
-def oracle_anova(tn, rows, y, r, order, noise, seed=1):
-    """returns a failure dict or None"""
+def oracle_anova(tn, rows, y, r, order, noise, seed=1, forms=None):
+    """returns a failure dict or None.  forms = dict(yform, iform, sform): how the arguments are handed over; the
+    reference is computed in exact arithmetic from the values the passed objects denote"""
     inp = dict(kind='anova', rows=rows, y=y, r=r, order=order, noise=noise, seed=seed)
-    I, yy = np.array(rows, dtype=int), np.array(y, dtype=float)
+    if forms:
+        inp['forms'] = forms
+        yy, y = form_y(y, forms['yform'])
+        I = form_I(rows, forms['iform'])
+        inp['y'] = y
+        r_, order_ = form_s(r, forms['sform']), form_s(order, forms['sform'])
+    else:
+        I, yy = np.array(rows, dtype=int), np.array(y, dtype=float)
+        r_, order_ = r, order
     scale = max(1.0, max(abs(v) for v in y))
     dom, f0, f1, f2 = ref_model(rows, y, order)
     d = len(dom)
     shp = [len(x) for x in dom]
     try:
-        A = tn.ANOVA(I, yy, order=order, seed=seed)
-        Y = A.cores(r=r, noise=noise)
-        Y2 = A.cores(r=r, noise=noise)          # history: the same object asked again
+        A = tn.ANOVA(I, yy, order=order_, seed=seed)
+        Y = A.cores(r=r_, noise=noise)
+        Y2 = A.cores(r=r_, noise=noise)          # history: the same object asked again
         Y3 = A.cores(r=r + 1, noise=noise)
-        Yf = tn.anova(I, yy, r=r, order=order, noise=noise, seed=seed)
+        Yf = tn.anova(I, yy, r=r_, order=order_, noise=noise, seed=seed)
     except Exception as e:  # noqa
         return dict(what='anova raised on valid samples: ' + repr(e)[:200], input=inp)
     tol = 1e-10 * scale
@@ -936,16 +1112,25 @@ def cheb_ref(k, t):
     return np.cos(k * np.arccos(np.clip(t, -1., 1.)))
 
 
-def oracle_func(tn, X, y, n, a, b, lamb, pts, rounding=True):
+def oracle_func(tn, X, y, n, a, b, lamb, pts, rounding=True, forms=None):
     inp = dict(kind='func', X=X, y=y, n=n, a=a, b=b, lamb=lamb, pts=pts, rounding=rounding)
+    d = len(X[0])
+    if forms:
+        inp['forms'] = forms
+        Xo = form_X(X, forms['xform'])
+        X = [[float(v) for v in row] for row in np.array(Xo, dtype=float)]
+        yo, y = form_y(y, forms['yform'])
+        inp['X'], inp['y'] = X, y
+        ao, bo, no = form_ab(a, d, forms['abform']), form_ab(b, d, forms['abform']), form_s(n, forms['nform'])
+    else:
+        Xo, yo, ao, bo, no = np.array(X), np.array(y), a, b, n
     try:
-        F = tn.ANOVA_func(np.array(X), np.array(y), n, a, b, lamb)
+        F = tn.ANOVA_func(Xo, yo, no, ao, bo, lamb)
         cfs = [np.array(c, dtype=float).reshape(-1) for c in F.coeffs]
-        A0 = tn.anova_func(np.array(X), np.array(y), n, a, b, lamb, e=None)
+        A0 = tn.anova_func(Xo, yo, no, ao, bo, lamb, e=None)
         A0b = F.cores(e=None)
         A0c = F.cores(e=None)        # history: the same object asked again
-        A = tn.anova_func(np.array(X), np.array(y), n, a, b, lamb) if rounding else None
-        d = len(X[0])
+        A = tn.anova_func(Xo, yo, no, ao, bo, lamb) if rounding else None
         P = np.array(pts)
         got0 = tn.func_get(P, A0, a, b)
         got = tn.func_get(P, A, a, b) if rounding else None
@@ -1011,8 +1196,9 @@ def oracle_func(tn, X, y, n, a, b, lamb, pts, rounding=True):
 def _run_oracle(tn, p):
     with np.errstate(all='ignore'):
         if p.get('kind') == 'func':
-            return oracle_func(tn, p['X'], p['y'], p['n'], p['a'], p['b'], p['lamb'], p['pts'], p.get('rounding', True))
-        return oracle_anova(tn, p['rows'], p['y'], p['r'], p['order'], p['noise'], p.get('seed', 1))
+            return oracle_func(tn, p['X'], p['y'], p['n'], p['a'], p['b'], p['lamb'], p['pts'], p.get('rounding', True),
+                               p.get('forms'))
+        return oracle_anova(tn, p['rows'], p['y'], p['r'], p['order'], p['noise'], p.get('seed', 1), p.get('forms'))
 
 
 def search(R, ctx, deep, hints):
@@ -1025,6 +1211,10 @@ def search(R, ctx, deep, hints):
         inp = h.get('input', {})
         if not isinstance(inp, dict):
             continue
+        if inp.get('stream') == 'argforms':
+            fm = dict(yform=inp['yform'], iform=inp['iform'], sform=inp['sform'])
+            cand.append(dict(kind='anova', rows=inp['rows'], y=inp['y'], r=inp['r'], order=inp['order'], noise=0.,
+                             forms=fm))
         if inp.get('stream') == 'history':
             for r in sorted(set(inp['r'])):
                 cand.append(dict(kind='anova', rows=inp['rows'], y=inp['y'], r=r, order=inp['order'], noise=0.))
@@ -1037,7 +1227,8 @@ def search(R, ctx, deep, hints):
         if inp.get('stream') == 'func':
             pts = [[inp['a'] + (inp['b'] - inp['a']) * rng.random() for _ in inp['X'][0]] for _ in range(5)]
             cand.append(dict(kind='func', X=inp['X'], y=inp['y'], n=inp['n'], a=inp['a'], b=inp['b'],
-                             lamb=inp['lamb'], pts=pts, rounding=inp.get('family') not in NO_ROUNDING))
+                             lamb=inp['lamb'], pts=pts, rounding=inp.get('family') not in NO_ROUNDING,
+                             forms=inp.get('forms')))
     # degenerate families
     grid2 = [[i, j] for i in range(2) for j in range(3)]
     cand.append(dict(kind='anova', rows=grid2, y=[1, 2, 3, 4, 5, 6], r=2, order=1, noise=0.))
@@ -1064,6 +1255,19 @@ def search(R, ctx, deep, hints):
         r = rng.choice([2, 3, 4, lossless_rank(shp)]) if order == 2 else rng.randint(2, 5)
         noise = rng.choice([0., 0., 1e-10, 1e-6, 1e-3]) if order == 1 else 0.
         cand.append(dict(kind='anova', rows=rows, y=y, r=r, order=order, noise=noise, seed=rng.randrange(1000)))
+    # argument forms: every y form on a fixed data set first, then random forms
+    rows0 = [[0, 5], [0, 7], [0, 9], [4, 5], [4, 7], [4, 9], [4, 9]]
+    for k_, yf in enumerate(Y_FORMS):
+        cand.append(dict(kind='anova', rows=rows0, y=[0.1, 0.2, 0.7, 1.3, 2.1, -0.4, 0.9] if yf[0] in 'lf'
+                         else [1, 2, 3, 4, 5, 6, 8], r=3, order=1 + k_ % 2, noise=0.,
+                         forms=dict(yform=yf, iform=I_FORMS[k_ % len(I_FORMS)], sform=S_FORMS[k_ % len(S_FORMS)])))
+    for _ in range(30 if not deep else 200):
+        rows, yobj, yex, Iobj, desc = gen_forms_anova(rng)
+        order = rng.choice([1, 2])
+        shp = [len(set(r_[k] for r_ in rows)) for k in range(desc['d'])]
+        cand.append(dict(kind='anova', rows=rows, y=yex, r=lossless_rank(shp) if order == 2 else rng.randint(2, 4),
+                         order=order, noise=0., forms=dict(yform=desc['yform'], iform=desc['iform'],
+                                                           sform=rng.choice(S_FORMS))))
     # additive functions on full grids: reproduced exactly
     for _ in range(20 if not deep else 100):
         rows, y, desc = gen_samples(rng, kind='additive_full')
@@ -1080,7 +1284,11 @@ def search(R, ctx, deep, hints):
         fam = FUNC_FAMILIES[k_ % len(FUNC_FAMILIES)]
         X, y, n, a, b, lamb, d = gen_func(rng, fam)
         pts = [[a + (b - a) * rng.random() for _ in range(d)] for _ in range(6)]
-        cand.append(dict(kind='func', X=X, y=y, n=n, a=a, b=b, lamb=lamb, pts=pts, rounding=fam not in NO_ROUNDING))
+        wide = fam in ('tiny18', 'tiny100', 'tiny300', 'huge100', 'huge200', 'mixed_tiny')
+        fm = dict(xform=rng.choice(X_FORMS), yform=rng.choice(['list', 'f64'] if wide else ['list', 'f64', 'f32', 'f16']),
+                  abform=rng.choice(AB_FORMS), nform=rng.choice(S_FORMS))
+        cand.append(dict(kind='func', X=X, y=y, n=n, a=a, b=b, lamb=lamb, pts=pts, rounding=fam not in NO_ROUNDING,
+                         forms=fm))
     for p in cand:
         n_eval += 1
         try:
